@@ -383,18 +383,24 @@ func memoryClass(seg segment, evLine []byte, ev map[string]any) string {
 				m, _ := x.(map[string]any)
 				now[fmt.Sprint(m["c"])] = true
 			}
-			gone := 0.0
+			gone, started := 0.0, false
 			for _, x := range pcs {
 				m, _ := x.(map[string]any)
 				if !now[fmt.Sprint(m["c"])] {
 					t, _ := m["tot"].(float64)
 					b, _ := m["beg"].(float64)
 					gone += t - b
+					iP, _ := m["iP"].(float64)
+					iN, _ := m["iN"].(float64)
+					if iP < iN {
+						started = true // a non-empty window always holds an allocated message
+					}
 				}
 			}
-			if dir == "not-released" && gone > 0 && mem-held >= gone {
-				// the unchanged tree releases the allocated messages and leaks only the part
-				// granted for messages that had not started; releasing nothing is another defect
+			if dir == "not-released" && gone > 0 && mem-held >= gone && started {
+				// the unchanged tree releases the allocated messages of the window and leaks only
+				// what was granted for messages that had not started; releasing nothing although
+				// the window held a started message is another defect
 				return "memory-nothing-released-on-reset"
 			}
 		}
@@ -606,14 +612,13 @@ func runC36(c *core.Ctx) error {
 	var mcs []mcCfg
 	if c.Thorough() {
 		mcs = []mcCfg{
-			{name: "safety-3-messages", nt: 2, mem: 4, msgs: 3, faults: 1, net: 2, hdr: 1, burst: 1, ch: 2, patient: true, workers: 6},
+			{name: "safety-3-messages", nt: 2, mem: 4, msgs: 3, faults: 1, net: 2, hdr: 1, burst: 1, ch: 2, patient: true, workers: 7},
 			{name: "safety", nt: 2, mem: 3, msgs: 2, faults: 1, net: 2, hdr: 2, burst: 2, ch: 2, patient: true, workers: 3},
 			{name: "safety-2-faults", nt: 2, mem: 3, msgs: 2, faults: 2, net: 2, hdr: 1, burst: 1, ch: 2, patient: true, workers: 3},
 			{name: "safety-eager-timers", nt: 2, mem: 2, msgs: 1, faults: 1, net: 2, hdr: 1, burst: 1, ch: 2, workers: 2, cover: true},
 			{name: "safety-3-transports", nt: 3, mem: 3, msgs: 2, faults: 1, net: 2, hdr: 1, burst: 1, ch: 1, patient: true, workers: 2},
 			{name: "liveness", nt: 2, mem: 3, msgs: 2, faults: 1, net: 2, hdr: 1, burst: 1, ch: 2, patient: true, live: true, workers: 2},
 			{name: "liveness-eager-timers", nt: 2, mem: 2, msgs: 1, faults: 1, net: 2, hdr: 1, burst: 1, ch: 2, live: true, workers: 2},
-			{name: "liveness-3-transports", nt: 3, mem: 3, msgs: 2, faults: 1, net: 2, hdr: 1, burst: 1, ch: 1, patient: true, live: true, workers: 2},
 		}
 	} else {
 		mcs = []mcCfg{
@@ -673,9 +678,10 @@ func runC36(c *core.Ctx) error {
 
 	// (a) behaviours of the model as command strings
 	var simHists [][][]any
-	bg.Add(1)
+	var bgSim sync.WaitGroup
+	bgSim.Add(1)
 	go func() {
-		defer bg.Done()
+		defer bgSim.Done()
 		depth := 36
 		consts := map[string]string{"NT": "3", "MEM": "6", "MSGS": "4", "FAULTS": "3", "NET": "4", "HDR": "3", "BURST": "2",
 			"CHUNKS": "3", "PATIENT": "FALSE", "DEPTH": strconv.Itoa(depth)}
@@ -733,17 +739,17 @@ func runC36(c *core.Ctx) error {
 	all = append(all, mk("random-memory", genOpts{nt: 3, minCmds: 10, maxCmds: 40, big: true}, q(25, 300), 1)...)
 	all = append(all, mk("random-restarts", genOpts{nt: 3, restarts: true, minCmds: 8, maxCmds: 50}, q(60, 600), 1)...)
 	// the bulk: summaries only (full trace when the prefilter has a hint)
-	all = append(all, mk("random", genOpts{nt: 2, minCmds: 5, maxCmds: 80}, q(3500, 120000), 0)...)
-	all = append(all, mk("random", genOpts{nt: 3, minCmds: 5, maxCmds: 90}, q(3500, 120000), 0)...)
-	all = append(all, mk("random-memory", genOpts{nt: 3, minCmds: 10, maxCmds: 90, big: true}, q(1500, 50000), 0)...)
-	all = append(all, mk("random", genOpts{nt: k.nt, minCmds: 10, maxCmds: 120}, q(500, 30000), 0)...)
-	all = append(all, mk("random-restarts", genOpts{nt: 3, restarts: true, minCmds: 5, maxCmds: 90}, q(3000, 100000), 0)...)
+	all = append(all, mk("random", genOpts{nt: 2, minCmds: 5, maxCmds: 80}, q(3500, 60000), 0)...)
+	all = append(all, mk("random", genOpts{nt: 3, minCmds: 5, maxCmds: 90}, q(3500, 60000), 0)...)
+	all = append(all, mk("random-memory", genOpts{nt: 3, minCmds: 10, maxCmds: 90, big: true}, q(1500, 25000), 0)...)
+	all = append(all, mk("random", genOpts{nt: k.nt, minCmds: 10, maxCmds: 120}, q(500, 15000), 0)...)
+	all = append(all, mk("random-restarts", genOpts{nt: 3, restarts: true, minCmds: 5, maxCmds: 90}, q(3000, 50000), 0)...)
 
 	segs, err := k.execute(all, c.Pick(4, 8))
 	if err != nil {
 		return err
 	}
-	bg.Wait()
+	bgSim.Wait() // the model checking runs continue in the background while TLC validates traces
 	if len(k.failed) > 0 {
 		return k.failed[0]
 	}
@@ -773,7 +779,7 @@ func runC36(c *core.Ctx) error {
 	// ---------------- TLC validates what was recorded ----------------
 	// order: traced first (budget), then summaries
 	sort.SliceStable(segs, func(i, j int) bool { return segs[i].res.Traced && !segs[j].res.Traced })
-	budget := c.Pick(75000, 1000000)
+	budget := c.Pick(75000, 600000)
 	var use, hinted []segment
 	total, skipped := 0, 0
 	perHint := map[string]int{}
@@ -815,6 +821,10 @@ func runC36(c *core.Ctx) error {
 	// ---------------- binding self-test ----------------
 	if err := k.selfTest(segs); err != nil {
 		return err
+	}
+	bg.Wait()
+	if len(k.failed) > 0 {
+		return k.failed[0]
 	}
 
 	// ---------------- evidence ----------------
